@@ -32,4 +32,23 @@ let wcs in_grammar side f =
         let capped = List.map (fun (s, t) -> (ocol (cap_opt s.s_fg), ocol (cap_opt s.s_bg), hexo (str_bytes t))) runs in
         "MERGED " ^ String.concat ";" (List.map (fun (a, b, t) -> Printf.sprintf "%s/%s/%s" a b t) capped)
 
+(* the console stream over the real stdout / stderr: on this platform write_colored is the ANSI
+   fallback (C17's model), so the bytes on the pipe are the console calls framed by wa_write_colored *)
+let ansi_of (c : n option) : ansi_color option =
+  match c with None -> None | Some i -> Some (List.nth all_ansi (int_of_n i))
+
+let wlk side f =
+  match side with
+  | `Spec -> "N/A"
+  | `Model ->
+      let h1 = nlist (unhex (List.nth f 1)) and h2 = nlist (unhex (List.nth f 2)) in
+      let (_, c), _ = unopt (wc_run_ops ws_new (console_of []) [ OWriteAll h1; OWriteAll h2 ]) in
+      let w =
+        List.fold_left
+          (fun w (cc : ccall) -> fst (wa_write_colored (ansi_of cc.cc_fg) (ansi_of cc.cc_bg) cc.cc_data w))
+          (writer_of []) c.con_calls
+      in
+      hexo w.w_received
+
+let () = register "wlk" wlk
 let () = register "wcs" (wcs true); register "wcsx" (wcs false)
